@@ -3,6 +3,9 @@
    (C::Raw::BITS_PER_PIXEL as a parameter) accepts / rejects exactly like Imageraw.raw_new, with the same expected size. *)
 From EG Require Import Base.Prelude Base.Casts Model.Geometry Model.Imageraw Gen.SrcGeometry Gen.SrcImage Gen.SrcImageNew Proofs.SrcColor.
 Set Default Timeout 60.
+(* the generated definitions that cast to usize (`as usize`, `usize::try_from`) take the width of usize as Casts.UsizeW; the model
+   of this property works with 64-bit usize (exact integers in range): taken at that width *)
+#[local] Existing Instance Casts.usize64_w.
 
 Definition new_result (r : image_raw + Z) : image_raw_ImageRaw + ImageRawError :=
   match r with
